@@ -154,7 +154,27 @@ func (sh *scriptHop) get(target string) *script {
 	}
 	sh.mu.Lock()
 	defer sh.mu.Unlock()
-	return sh.scripts[p]
+	if s := sh.scripts[p]; s != nil {
+		return s
+	}
+	// a target the proxy has re-written still belongs to its case: header cases are named by their first path segment
+	seg := func(x string) string {
+		if len(x) < 3 || x[:2] != "/h" {
+			return ""
+		}
+		if i := strings.IndexAny(x[1:], "/?"); i >= 0 {
+			return x[:i+1]
+		}
+		return x
+	}
+	if want := seg(p); want != "" {
+		for k, s := range sh.scripts {
+			if seg(k) == want {
+				return s
+			}
+		}
+	}
+	return nil
 }
 
 var reasons = map[int]string{200: "OK", 201: "Created", 204: "No Content", 304: "Not Modified", 404: "Not Found",
@@ -461,7 +481,9 @@ type field0 struct {
 	V string `json:"v"`
 }
 
-var h1Paths = []string{"/", "/a/b", "//x", "/%7Eu", "/a%2Fb", "/q?", "/p?a=b&c=%20", "/p?;+", "/sp%20ace?x=%2F%3F", "/UPPER/lower?Q=1"}
+var h1Paths = []string{"/", "/a/b", "//x", "/%7Eu", "/a%2Fb", "/q?", "/p?a=b&c=%20", "/p?;+", "/sp%20ace?x=%2F%3F", "/UPPER/lower?Q=1",
+	// bytes Go's url package does not take as they are in a path, next to escapes that protect a delimiter
+	"/dir%2Ffile|v2", "/a^b/%2B1?x=%2B"}
 var h1Methods = []string{"GET", "POST", "DELETE", "OPTIONS", "PURGE", "PUT"}
 
 func spell(n string) string {
@@ -516,6 +538,60 @@ func h1Headers(e *env) {
 		}()
 	}
 	wg.Wait()
+	// the asterisk form of the request target (OPTIONS *), once per route, one after the other
+	for _, route := range h1Routes[:3] {
+		e.emit(he.starCase(route))
+	}
+}
+
+// starCase: "OPTIONS *" asks about the server as a whole. An origin must see the asterisk form; a next proxy
+// the absolute form with an empty path (RFC 7230 5.3.4), which it turns back into "*".
+func (he *h1Env) starCase(route string) map[string]any {
+	res := map[string]any{"ok": true, "ids": []string{"asterisk"}, "route": route, "method": "OPTIONS", "target": "*", "nt": true}
+	fail := func(why string) {
+		why = "asterisk-form: " + why
+		if res["ok"] == true {
+			res["ok"], res["why"] = false, why
+		}
+		res["whys"] = append(res["whys"].([]string), why)
+	}
+	res["whys"] = []string{}
+	sc := &script{id: "star-" + route, up: upShape{St: 200, Fr: "cl", Sz: 1}, done: make(chan struct{})}
+	sc.body = []byte("ok")
+	he.hop.put("*", sc)
+	he.hop.put("/", sc) // whatever the target has become, the request is taken for this case
+	cl, err := he.open(route)
+	if err != nil {
+		fatal("open: %v", err)
+	}
+	defer cl.raw.close()
+	cl.raw.send([]byte("OPTIONS * HTTP/1.1\r\nHost: origin.test\r\n\r\n"))
+	resp, err := cl.raw.recv("OPTIONS", 8*time.Second)
+	if err != nil {
+		fail("no parsable response: " + err.Error())
+		return res
+	}
+	if resp.Status != 200 {
+		fail(fmt.Sprintf("status %d", resp.Status))
+	}
+	select {
+	case <-sc.done:
+	case <-time.After(2 * time.Second):
+		fail("request never reached the next hop")
+		return res
+	}
+	want := "*"
+	if route == "upstream" {
+		want = "http://origin.test"
+	}
+	res["hop_saw"] = []string{sc.req.Method + " " + sc.req.Target + " " + sc.req.Version}
+	if sc.req.Method != "OPTIONS" || sc.req.Target != want {
+		fail(fmt.Sprintf("next hop got %q, expected request target %q", sc.req.Method+" "+sc.req.Target, want))
+	}
+	if h := sc.req.get("Host"); len(h) != 1 || h[0] != "origin.test" {
+		fail(fmt.Sprintf("Host %v", h))
+	}
+	return res
 }
 
 func (he *h1Env) headerCase(i int, c *h1HeaderCase) map[string]any {
@@ -529,10 +605,14 @@ func (he *h1Env) headerCase(i int, c *h1HeaderCase) map[string]any {
 	}
 	pq = fmt.Sprintf("/h%d%s%scase=%d", i, pq, sep, i)
 	res := map[string]any{"ok": true, "ids": c.Ids, "route": route, "method": method, "target": pq, "nt": len(c.Ids) > 0}
+	var whys []string
 	fail := func(why string) {
 		if res["ok"] == true {
 			res["ok"], res["why"] = false, why
 		}
+		// every difference is reported: one that is a recorded finding must not hide another
+		whys = append(whys, why)
+		res["whys"] = whys
 	}
 	var body []byte
 	if method == "POST" || method == "PUT" {
@@ -628,7 +708,7 @@ func (he *h1Env) headerCase(i int, c *h1HeaderCase) map[string]any {
 		if managed[n] && n != "x-forwarded-proto" && n != "x-forwarded-host" && n != "x-forwarded-url" && n != "accept-encoding" && n != "user-agent" {
 			continue
 		}
-		if strings.Join(hop[n], "\x00") != strings.Join(vs, "\x00") {
+		if len(hop[n]) != len(vs) || strings.Join(hop[n], "\x00") != strings.Join(vs, "\x00") {
 			fail(fmt.Sprintf("field %s: hop saw %q, client sent %q", n, hop[n], vs))
 		}
 	}
